@@ -158,8 +158,14 @@ def run(case: dict, *, count_only: bool = False) -> Obs:
         dev.invalid_password = True
     if case.get("api_major") is not None:
         dev.api_version = (int(case["api_major"]), 10)
-    if case.get("device_name"):
-        dev.name = case["device_name"]
+    if case.get("device_name") is not None:
+        dev.name = case["device_name"]  # ("" = a device that announces no name in its hello)
+    if case.get("devinfo_extra"):
+        # whoever asks for the device's description gets it with these frames behind it in the same chunk
+        def _devinfo(s_, _p, extra=list(case["devinfo_extra"])):
+            s_.send_raw(s_.encode(pb.DeviceInfoResponse(name=dev.name or "unnamed", mac_address="AA:BB:CC:DD:EE:FF")) + encode_frames(s_, extra))
+
+        dev.handlers[9] = _devinfo
     hello_extra = list(case.get("hello_extra") or [])
     hello_then = case.get("hello_then")  # "eof" | "reset": right behind the hello answer, in the same loop turn
     if hello_extra or hello_then:
